@@ -167,7 +167,9 @@ NEIGHBOURHOODS = {
     "dicts": ["Dict[str, int]", "Dict[str, str]", "Dict[int, int]", "Dict[Any, Any]", "DefaultDict[str, int]", "DefaultDict[Any, Any]",
               "Dict[str, List[Any]]", "Dict[str, List[int]]", "List[int]", "NoneType"],
     "empties": ["List[Any]", "List[int]", "Set[Any]", "Set[str]", "Dict[Any, Any]", "Dict[str, int]", "DefaultDict[Any, Any]", "DefaultDict[str, int]",
-                "Iterator[Any]", "Generator[int, NoneType, NoneType]", "Tuple[()]", "Tuple[int]", "NoneType", "int"],
+                "Iterator[Any]", "Generator[int, NoneType, NoneType]", "Tuple[()]", "Tuple[int]", "NoneType", "int",
+                # containers of unions that a large-union rewriter turns into C[Any]: one rewriter's output is the next one's trigger
+                "List[Union[int, str, float]]", "Set[Union[int, str, bytes]]", "Set[bool]", "Dict[str, Union[int, str, A]]"],
 }
 WRAPPERS = ["{u}", "List[{u}]", "Dict[str, {u}]", "Tuple[int, {u}]", "TD({{'f': {u}}}, {{}})", "Optional[List[{u}]]", "Iterator[{u}]", "DefaultDict[str, {u}]"]
 
